@@ -351,6 +351,25 @@ func ruleNAccess(c *engine.Context) *report.Rule {
 		ok := true
 		var why []string
 		fail := func(f string, a ...interface{}) { ok = false; why = append(why, fmt.Sprintf(f, a...)) }
+		// what the accessors capture must not be assigned again after they were created: a loop
+		// variable shared by all iterations would make every accessor address the last member
+		for _, cv := range []ssa.Value{getV, setV} {
+			mc, isMC := cv.(*ssa.MakeClosure)
+			if !isMC {
+				continue
+			}
+			for _, bnd := range mc.Bindings {
+				cell, isCell := bnd.(*ssa.Alloc)
+				if !isCell {
+					continue
+				}
+				for _, ref := range *cell.Referrers() {
+					if st, isSt := ref.(*ssa.Store); isSt && st.Addr == ssa.Value(cell) && reachesWithoutRealloc(mc, st, cell) {
+						fail("an accessor captures variable %s, which is assigned again after the accessor was created (a loop variable shared by all iterations): accessors of earlier members then address a later member", cell.Comment)
+					}
+				}
+			}
+		}
 		getFn := closureFn(getV)
 		if getFn == nil {
 			fail("Get is not a function literal")
@@ -841,7 +860,7 @@ func ruleNKind(c *engine.Context) *report.Rule {
 							for i, pp := range fn.Params {
 								if it, isI := pp.Type().Underlying().(*types.Interface); isI && it.NumMethods() == 0 {
 									var why []string
-									if foundTypeOK(p, stv.Val, pp, &why) {
+									if foundTypeOK(p, stv.Val, pp, &why, stv.Block()) {
 										roles.found = i
 									}
 								}
@@ -973,7 +992,7 @@ func ruleNKind(c *engine.Context) *report.Rule {
 								ks.why = append(ks.why, "expected kind is not a constant")
 							}
 						case foundIdx:
-							ks.foundOK = foundTypeOK(p, stv.Val, current, &ks.why)
+							ks.foundOK = foundTypeOK(p, stv.Val, current, &ks.why, stv.Block())
 						case nodeIdx:
 							// load of a field of the receiver (possibly through the embedded basic node)
 							ks.nodeOK = derivesFromReceiver(stv.Val, fn)
@@ -1021,17 +1040,31 @@ func ruleNKind(c *engine.Context) *report.Rule {
 }
 
 // foundTypeOK: v = phi(const, reflect.TypeOf(current).String()) with the call under current != nil.
-func foundTypeOK(p *load.Program, v ssa.Value, current ssa.Value, why *[]string) bool {
-	ph, ok := v.(*ssa.Phi)
-	if !ok {
-		*why = append(*why, "found type is not `null`-or-reflect-type")
-		return false
+func foundTypeOK(p *load.Program, v ssa.Value, current ssa.Value, why *[]string, useBlock *ssa.BasicBlock) bool {
+	// one source of the found-type text, judged where it is chosen: a constant needs the value
+	// to be nil (or to be one alternative of a nil-guarded choice), the reflected type needs the
+	// value to be non-nil
+	nilFact := func(conds []edgeCond) int { // 1 nil, 0 non-nil, -1 unknown
+		out := -1
+		for _, dc := range conds {
+			if bo, ok := dc.cond.(*ssa.BinOp); ok && (bo.Op == token.EQL || bo.Op == token.NEQ) {
+				if (isNilConstV(bo.Y) && bo.X == current) || (isNilConstV(bo.X) && bo.Y == current) {
+					if (bo.Op == token.EQL) == dc.taken {
+						out = 1
+					} else {
+						out = 0
+					}
+				}
+			}
+		}
+		return out
 	}
 	sawConst, sawType := false, false
-	for i, e := range ph.Edges {
+	one := func(e ssa.Value, conds []edgeCond) bool {
 		switch x := e.(type) {
 		case *ssa.Const:
 			sawConst = true
+			return true
 		case *ssa.Call:
 			// invoke String on reflect.TypeOf(current)
 			if !x.Call.IsInvoke() || x.Call.Method.Name() != "String" {
@@ -1043,33 +1076,48 @@ func foundTypeOK(p *load.Program, v ssa.Value, current ssa.Value, why *[]string)
 				*why = append(*why, "found type is not obtained by reflect.TypeOf(value).String()")
 				return false
 			}
-			arg := tc.Call.Args[0]
-			if arg != current {
+			if tc.Call.Args[0] != current {
 				*why = append(*why, "found type is computed from a different value than the one that failed the type test")
 				return false
 			}
-			// nil guard
-			guarded := false
-			for _, dc := range append(dominatingConds(x.Block()), edgeCondsOfPred(ph.Block().Preds[i])...) {
-				if bo, ok := dc.cond.(*ssa.BinOp); ok {
-					if cst, ok := bo.Y.(*ssa.Const); ok && cst.IsNil() && bo.X == current {
-						if (bo.Op == token.NEQ) == dc.taken {
-							guarded = true
-						}
-					}
-				}
-			}
-			if !guarded {
+			if nilFact(append(dominatingConds(x.Block()), conds...)) != 0 {
 				*why = append(*why, "reflect.TypeOf(value).String() is not guarded by value != nil")
 				return false
 			}
 			sawType = true
-		default:
-			*why = append(*why, "found type has an unrecognised source")
-			return false
+			return true
 		}
+		*why = append(*why, "found type has an unrecognised source")
+		return false
 	}
-	return sawConst && sawType
+	if ph, ok := v.(*ssa.Phi); ok {
+		for i, e := range ph.Edges {
+			if !one(e, edgeCondsOfPred(ph.Block().Preds[i])) {
+				return false
+			}
+		}
+		return sawConst && sawType
+	}
+	// a single source: the error is built separately for the nil and the non-nil value
+	var at *ssa.BasicBlock
+	if ins, isIns := v.(ssa.Instruction); isIns {
+		at = ins.Block()
+	}
+	if _, isC := v.(*ssa.Const); isC {
+		// the constant text stands for "no value": the value must be known nil where it is stored
+		if useBlock != nil && nilFact(dominatingConds(useBlock)) == 1 {
+			return true
+		}
+		*why = append(*why, "a constant found type is used on a path where the value is not known to be nil")
+		return false
+	}
+	if at == nil || !one(v, nil) {
+		if at == nil {
+			*why = append(*why, "found type has an unrecognised source")
+		}
+		return false
+	}
+	return sawType
 }
 
 func derivesFromReceiver(v ssa.Value, fn *ssa.Function) bool {
@@ -2103,4 +2151,52 @@ func sameParamVar(fn *ssa.Function, v ssa.Value, prm *ssa.Parameter) bool {
 		return false
 	}
 	return loadOfCell(v) == cell
+}
+
+// reachesWithoutRealloc: control can flow from a to the store st into cell without allocating the
+// cell anew on the way (a variable declared inside a loop body is a new cell in every iteration).
+func reachesWithoutRealloc(a ssa.Instruction, st *ssa.Store, cell *ssa.Alloc) bool {
+	ab := cell.Block()
+	// the store follows the allocation in the allocation's own block: entering that block again
+	// makes a new cell
+	allocFirst := func(b *ssa.BasicBlock) bool {
+		if b != ab {
+			return false
+		}
+		for _, ins := range b.Instrs {
+			if ins == ssa.Instruction(cell) {
+				return true
+			}
+			if ins == ssa.Instruction(st) {
+				return false
+			}
+		}
+		return false
+	}
+	if a.Block() == st.Block() && instrBefore(a, st) {
+		return true
+	}
+	seen := map[*ssa.BasicBlock]bool{}
+	var walk func(x *ssa.BasicBlock) bool
+	walk = func(x *ssa.BasicBlock) bool {
+		for _, s := range x.Succs {
+			if s == st.Block() {
+				if !allocFirst(s) {
+					return true
+				}
+				continue
+			}
+			if s == ab {
+				continue // allocates a fresh cell; whatever follows stores into that one
+			}
+			if !seen[s] {
+				seen[s] = true
+				if walk(s) {
+					return true
+				}
+			}
+		}
+		return false
+	}
+	return walk(a.Block())
 }
